@@ -8,10 +8,13 @@ env = dict(os.environ, GOFLAGS='-mod=mod', GOPROXY='off', GOSUMDB='off', GOTOOLC
 def sh(cmd, **kw):
     return subprocess.run(cmd, shell=True, capture_output=True, text=True, **kw)
 if not os.path.isdir(SCRATCH):
-    sh(f'git -C /repo worktree add --detach {SCRATCH} HEAD')
+    sh('git -C /repo worktree prune')
+    r = sh(f'git -C /repo worktree add --detach {SCRATCH} HEAD')
+    if r.returncode != 0:
+        sys.exit('cannot create scratch worktree: ' + r.stderr)
 only = sys.argv[1:]
 # extra properties whose checks are also expected to notice a change
-also = {'C08-m2': ['C06'], 'C04-m2': ['C06'], 'C11-m1': ['C09'], 'C03-m2': ['C13'], 'C01-m1': ['C13'], 'C15-m2': ['C01'], 'C01-m2': ['C12'], 'C02-m2': ['C01', 'C03'], 'C04-r2m1': ['C06', 'C08'], 'C04-r2m2': ['C12'], 'C19-r2m2': ['C06'], 'C12-r2m1': ['C19'], 'C07-r2m2': ['C13'], 'C01-r2m1': ['C13'], 'C11-r2m1': ['C09'], 'C11-r2m2': ['C17'], 'C03-r2m1': ['C02'], 'C02-r2m2': ['C03'], 'C15-r2m2': ['C13']}
+also = {'C11-r3m1': ['C09'], 'C11-r3m2': ['C13','C09'], 'C13-r3m1': ['C09','C11'], 'C15-r3m1': ['C12','C01'], 'C15-r3m2': ['C14','C01'], 'C14-r3m2': ['C15','C02'], 'C16-r3m1': ['C17'], 'C16-r3m2': ['C14'], 'C19-r3m2': ['C06','C12'], 'C12-r3m2': ['C01'], 'C20-r3m2': ['C09'], 'C17-r3m2': ['C16'], 'C03-r3m2': ['C13','C01'], 'C05-r3m1': ['C06','C10'], 'C04-r3m1': ['C06','C10'], 'C05-r3m2': ['C06','C12'], 'C02-r3m2': ['C06','C08'], 'C01-r3m1': ['C12','C19'], 'C01-r3m2': ['C02'], 'C10-r3m1': ['C16'], 'C10-r3m2': ['C05'], 'C08-r3m2': ['C07'], 'C07-r3m2': ['C08'], 'C04-r3m2': ['C06','C12'], 'C09-r3m1': ['C11'], 'C08-m2': ['C06'], 'C04-m2': ['C06'], 'C11-m1': ['C09'], 'C03-m2': ['C13'], 'C01-m1': ['C13'], 'C15-m2': ['C01'], 'C01-m2': ['C12'], 'C02-m2': ['C01', 'C03'], 'C04-r2m1': ['C06', 'C08'], 'C04-r2m2': ['C12'], 'C19-r2m2': ['C06'], 'C12-r2m1': ['C19'], 'C07-r2m2': ['C13'], 'C01-r2m1': ['C13'], 'C11-r2m1': ['C09'], 'C11-r2m2': ['C17'], 'C03-r2m1': ['C02'], 'C02-r2m2': ['C03'], 'C15-r2m2': ['C13']}
 for d in sorted(glob.glob('/verif/seeded/*')):
     sid = os.path.basename(d)
     if only and sid not in only:
